@@ -610,7 +610,13 @@ async fn nodeloop(w: &Arc<World>, p: &Plan) {
             w.stat("probe.c05.zero_len_frame");
         }
         if big_junk_at == Some(i) {
-            let mut junk = r.bytes((1 << 20) + 1 + (p.fault_at % 700_000) as usize);
+            let mut junk = if p.fault_at % 70 == 2 {
+                // exactly the largest frame the node loop takes (64 MiB): an error for its content, not for its length
+                w.stat("probe.c05.frame_of_exactly_the_node_loop_cap");
+                vec![0u8; 64 * 1024 * 1024]
+            } else {
+                r.bytes((1 << 20) + 1 + (p.fault_at % 700_000) as usize)
+            };
             junk[0] = *r.pick(&[131u8, 0, 111, 113, 255]);
             stream.extend_from_slice(&wire::frame4(&junk));
             expect.push(None);
